@@ -207,10 +207,10 @@ ROWS = {
        'command line through an argv-printing stub; ipmitool output format taken from its sources; histories of 2..4 calls on ONE Ipmitool object with credentials / host / privilege / session changed in between, each call judged against the argument vector its CURRENT settings demand (pristine child per history)',
   tech='Lean 4 proof (shell-quoting inertness by induction on the string; printer/parser inversion) + translator + correspondence through the real shell'),
  'C20': dict(
-  text='51 Lean theorems over the command table regenerated from pyipmi/ipmitool.py: every entry resolves to an existing '
+  text='55 Lean theorems over the command table regenerated from pyipmi/ipmitool.py: every entry resolves to an existing '
        'operation with an acceptable arity (kernel-decided over the whole generated table; table_is_intended: today\'s table IS the repaired one, so a regression of one entry stops the build), chassis power sub-commands '
        'map to distinct option codes, longest-prefix lookup is correct, getopt separates options as given, raw '
-       'sends/prints exactly; every class of pyipmi.errors and a socket time-out, raised by open, a request or close, ends main() with a message and status 1 (error_classes_complete, all_errors_exit_nonzero, main_reports_every_failure); numeric arguments are accepted in decimal and hex at every converting position; the printing handlers raise no Python error on a link-less channel, every SDR type of IPMI ch. 43, sensors flagged unavailable and raw values outside the domain of a non-linear function; as-shipped counter-example theorems for each; the LUN argument of all six get_sensor_reading calls of sdr list/show/showall is read from the source and pinned (sensor_reads_today), sdr show of a full record addresses (owner LUN, number) for every record (sdr_show_full_reads_owner_lun). Tie: main() run in-process for every entry against the direct API '
+       'sends/prints exactly; every class of pyipmi.errors and a socket time-out, raised by open, a request or close, ends main() with a message and status 1 (error_classes_complete, all_errors_exit_nonzero, main_reports_every_failure); numeric arguments are accepted in decimal and hex at every converting position; the printing handlers raise no Python error on a link-less channel, every SDR type of IPMI ch. 43, sensors flagged unavailable and raw values outside the domain of a non-linear function and non-linear sensors of every linearization byte (70h-7Fh: no value for a tool that reads the record only; sensor_values_no_python_error over all 128 codes, lin model tied to the library on 256 bytes x 3 signs); as-shipped counter-example theorems for each; the LUN argument of all six get_sensor_reading calls of sdr list/show/showall is read from the source and pinned (sensor_reads_today), sdr show of a full record addresses (owner LUN, number) for every record (sdr_show_full_reads_owner_lun). Tie: main() run in-process for every entry against the direct API '
        'call on an identical BMC stub.',
   note='translator harness/translate/cli.py (also reads the except clauses and where close() sits, the classes of errors.py, every int(args[k][, 0]), the handler guards and caught classes, the SDR class table; the hypotheses exitsCover, closeInside, base10Args = [] and the handler guards are evaluated on today\'s source by the driver\'s probe on every run); getopt/int(s,0) modelled in Lean and tied to CPython by the run; stub BMC profiles full / minimal / plain / sdrtypes / nonlinear / unavailable / luns (sensors on owner LUN 0/1/3, same number on two LUNs) with an HPM.1 upgrade agent; a traceback is not counted as a message; "completes '
        'without a Python error" is checked per entry on the stub profiles (a Python error on a fault-free run is a violation), not proved; histories of 2..4 consecutive main() runs in one process with every option given in one run and absent in the next: each run must equal the same run alone in a new process',
